@@ -467,5 +467,93 @@ func TestC07(t *testing.T) {
 			}
 		}
 	}
+	// (7) all LCM shards at once: the initiating cluster opens one stream per LCM shard and keeps them all open. Several LCM
+	// shards share one real shard of the serving cluster; their streams must coexist — every LCM shard is forwarded to exactly
+	// one LIVE upstream stream with the remapped ids, for as long as the initiator keeps it open
+	for _, pr := range [][2]int32{{2, 3}, {4, 6}, {8, 2}, {3, 3}, {5, 7}} {
+		local, remote := pr[0], pr[1]
+		L := common.LCM(local, remote)
+		for _, inbound := range []bool{true, false} {
+			count := remote
+			dirs := []string{"outbound"}
+			if inbound {
+				count = local
+				dirs = []string{"inbound"}
+			}
+			client := newMultiClient()
+			lifetime, stop := context.WithCancel(context.Background())
+			srv := proxy.NewAdminServiceProxyServer("c07", client, client, proxy.AdminServiceOverrides{}, dirs, func(int32, int32) {},
+				config.ShardCountConfig{Mode: config.ShardCountLCM, LocalShardCount: local, RemoteShardCount: remote},
+				proxy.LCMParameters{LCM: L, TargetShardCount: count}, proxy.RoutingParameters{}, noopLoggers(), nil, lifetime)
+			type held struct {
+				cancel context.CancelFunc
+				done   chan error
+			}
+			hs := make([]held, L+1)
+			order := rng.Perm(int(L))
+			for _, i := range order {
+				sid := int32(i + 1)
+				ctx, cancel := context.WithCancel(metadata.NewIncomingContext(context.Background(), streamMD(7, (sid-1)%(local+remote-count)+1, 9, sid)))
+				ss := newSrvStream(ctx)
+				done := make(chan error, 1)
+				hs[sid] = held{cancel, done}
+				go func() { done <- srv.StreamWorkflowReplicationMessages(ss) }()
+				for w := time.Now(); time.Since(w) < 3*time.Second; time.Sleep(time.Millisecond) { // this stream's upstream open has happened
+					client.mu.Lock()
+					n := len(client.attempts)
+					client.mu.Unlock()
+					if n > 0 && func() bool {
+						for _, cs := range client.All() {
+							if v := cs.md.Get(history.MetadataKeyClientShardID); len(v) > 0 && v[0] == fmt.Sprint(sid) {
+								return true
+							}
+						}
+						return false
+					}() {
+						break
+					}
+				}
+			}
+			time.Sleep(150 * time.Millisecond) // whatever one stream's arrival does to the others has happened by now
+			op := fmt.Sprintf("# all-at-once local=%d remote=%d inbound=%v lcm=%d order=%v", local, remote, inbound, L, order)
+			e.Emit(op, "#")
+			e.Evals++
+			e.Count("all_lcm_shards_at_once")
+			for sid := int32(1); sid <= L; sid++ {
+				want := fmt.Sprintf("md 7 %d 9 %d", sid, (sid-1)%count+1)
+				live, dead := 0, 0
+				for _, cs := range client.All() {
+					if mdString(cs.md) == want {
+						if cs.ctx.Err() == nil {
+							live++
+						} else {
+							dead++
+						}
+					}
+				}
+				returned := false
+				select {
+				case err := <-hs[sid].done:
+					returned = true
+					hs[sid].done <- err
+				default:
+				}
+				if live != 1 || returned {
+					viol(fmt.Sprintf("all %d LCM shards opened at once (local=%d remote=%d inbound=%v): LCM shard %d has %d live and %d ended upstream stream(s) carrying %q, its handler has returned: %v — each LCM shard must stay forwarded to exactly one stream", L, local, remote, inbound, sid, live, dead, want, returned), op)
+					break
+				}
+			}
+			for sid := int32(1); sid <= L; sid++ {
+				hs[sid].cancel()
+			}
+			stop()
+			for sid := int32(1); sid <= L; sid++ {
+				select {
+				case <-hs[sid].done:
+				case <-time.After(5 * time.Second):
+				}
+			}
+		}
+	}
 	e.Sample([]string{"lcm 4 6", "map 12 4 7", "e2estream 2 3 1 7 3 9 5", "e2edesc 2 3 1 0 2"})
 }
